@@ -42,6 +42,10 @@ var c09MoreValues = []c09Value{
 	// equal values, different record types
 	{"NOERROR;SVCB;10 svc.example alpn=h2", "SVCB|10 svc.example alpn=h2"},
 	{"NOERROR;PTR;ptr.example.", "PTR|ptr.example."}, {"NOERROR;TXT;ptr.example.", "TXT|ptr.example."},
+	// record types the library has no value parser for: the type is kept, the value is not
+	{"NOERROR;NS;ns1.example.", "NS|"}, {"NOERROR;CAA;0 issue ca.example", "CAA|"},
+	// a parameter whose value is a list (its comma escaped in the rule)
+	{"NOERROR;HTTPS;10 svc.example alpn=h3\\,h2", "HTTPS|10 svc.example alpn=h3,h2"},
 	// same priority, target and parameter count; one has a flag parameter (empty value) the other lacks
 	{"NOERROR;HTTPS;10 svc.example alpn=h2 no-default-alpn=", "HTTPS|10 svc.example alpn=h2 no-default-alpn="}, {"NOERROR;HTTPS;10 svc.example alpn=h2 port=8443", "HTTPS|10 svc.example alpn=h2 port=8443"},
 }
@@ -149,6 +153,26 @@ next:
 	return out
 }
 
+// c09RenderRewrite writes a parsed rewrite out with the values behind its pointers.
+func c09RenderRewrite(d *rules.DNSRewrite) string {
+	val := fmt.Sprintf("%T %+v", d.Value, d.Value)
+	switch v := d.Value.(type) {
+	case *rules.DNSSVCB:
+		if v != nil {
+			val = fmt.Sprintf("SVCB %+v", *v)
+		}
+	case *rules.DNSMX:
+		if v != nil {
+			val = fmt.Sprintf("MX %+v", *v)
+		}
+	case *rules.DNSSRV:
+		if v != nil {
+			val = fmt.Sprintf("SRV %+v", *v)
+		}
+	}
+	return fmt.Sprintf("rcode=%d type=%d cname=%q value=%s", d.RCode, d.RRType, d.NewCNAME, val)
+}
+
 func c09CheckSeq(c *Ctx, seq []*rules.NetworkRule) bool {
 	res := &urlfilter.DNSResult{NetworkRules: append([]*rules.NetworkRule{}, seq...)}
 	var got, got2 []*rules.NetworkRule
@@ -157,7 +181,7 @@ func c09CheckSeq(c *Ctx, seq []*rules.NetworkRule) bool {
 	snapshot := len(seq) <= 3
 	for i, r := range seq {
 		if snapshot && r.DNSRewrite != nil {
-			values[i] = fmt.Sprintf("%+v", *r.DNSRewrite)
+			values[i] = c09RenderRewrite(r.DNSRewrite)
 		}
 	}
 	if p := protect(func() {
@@ -202,8 +226,8 @@ func c09CheckSeq(c *Ctx, seq []*rules.NetworkRule) bool {
 			bad("result-unchanged", fmt.Sprintf("DNSRewrites changed NetworkRules of the result for %v", netTexts(seq)))
 			break
 		}
-		if snapshot && seq[i].DNSRewrite != nil && fmt.Sprintf("%+v", *seq[i].DNSRewrite) != values[i] {
-			bad("result-unchanged", fmt.Sprintf("DNSRewrites over %v changed the parsed value of rule %q: it was %s, it is %+v", netTexts(seq), seq[i].RuleText, values[i], *seq[i].DNSRewrite))
+		if snapshot && seq[i].DNSRewrite != nil && c09RenderRewrite(seq[i].DNSRewrite) != values[i] {
+			bad("result-unchanged", fmt.Sprintf("DNSRewrites over %v changed the parsed value of rule %q: it was %s, it is %s", netTexts(seq), seq[i].RuleText, values[i], c09RenderRewrite(seq[i].DNSRewrite)))
 			break
 		}
 	}
@@ -259,6 +283,12 @@ func init() {
 			k, maxLen := pass[0], pass[1]
 			c.parallel(k+1, func(first int) {
 				var le, ln int64
+				// every worker owns its rule objects: an evaluation that writes to a rule must not turn into a
+				// data race of the harness (the value snapshots in c09CheckSeq report the write)
+				rulesA := make([]*rules.NetworkRule, len(alpha))
+				for i, t := range alpha {
+					rulesA[i] = mustNetRule(t, []int{5, 1, 9, 3, 7, 2, 8}[i%7])
+				}
 				run := func(seq []*rules.NetworkRule) {
 					le++
 					hasExc, hasRw := false, false
